@@ -178,6 +178,8 @@ def _eval_stmt(fn, stmt, env, leaf_base):
     def leaf(text, node):
         if node["k"] == "ref" and node.get("did") in env:
             return env[node["did"]]
+        if node["k"] == "call" and node.get("cn") == "__builtin_expect" and node.get("args"):
+            return fold(node["args"][0])           # ASMJIT_LIKELY / ASMJIT_UNLIKELY
         return leaf_base(text, node)
 
     def fold(e):
@@ -203,6 +205,13 @@ def _eval_stmt(fn, stmt, env, leaf_base):
         l = fn.e(fn.strip(x["lhs"]))
         if l is not None and l["k"] == "ref" and l.get("dk") == "local":
             env[l["did"]] = fold(x["rhs"])
+        else:
+            raise Unknown()
+    elif k == "binop" and x["op"] in ("<<=", ">>=", "|=", "&=", "+=", "-=", "*="):
+        l = fn.e(fn.strip(x["lhs"]))
+        if l is not None and l["k"] == "ref" and l.get("did") in env:
+            a, b = env[l["did"]], fold(x["rhs"])
+            env[l["did"]] = {"<<=": a << b, ">>=": a >> b, "|=": a | b, "&=": a & b, "+=": a + b, "-=": a - b, "*=": a * b}[x["op"]] & ((1 << 64) - 1)
         else:
             raise Unknown()
     elif k in ("s:NullStmt", "s:DeclStmt"):
